@@ -29,6 +29,7 @@ from hpstatic.terms import (sym, intern, show, subterms, calls_in, NONE, num, kw
                             is_num)
 from hpstatic.xrnorm import atom_rewrite
 from .c05 import subst
+from .common import is_sum
 
 MUTATION_TARGETS = {'holopy/scattering/theory/mielensfunctions.py': ['calculate_al_bl', 'riccati_psin', 'riccati_xin', 'calculate_pil_taul', '_eval', 'spherical_h2n'], 'holopy/scattering/theory/mie_f/miescatlib.py': ['scatcoeffs'], 'holopy/scattering/theory/mie_f/multilayer_sphere_lib.py': ['scatcoeffs_multi'], 'holopy/scattering/scatterer/sphere.py': ['r'], 'holopy/scattering/theory/mie.py': ['_scat_coeffs']}
 
@@ -100,9 +101,8 @@ def layered_radii(check, prog, canon):
             if i:
                 I = i[0]
                 ok_step = canon.equal(key, intern(('bin', '+', I, num(1)))) and \
-                    val[0] == 'bin' and val[1] == '+' and \
-                    val[2] == ('idx', step[1], I) and \
-                    val[3] == ('elem', rest, I[1][2])
+                    is_sum(val, intern(('idx', step[1], I)),
+                           intern(('elem', rest, I[1][2])))
         ok = ok_init and ok_iter and ok_step
         why = 'init %s; loop over %s; step %s' % (show(init)[:80], show(itr)[:60],
                                                    show(step)[:160])
@@ -291,12 +291,23 @@ def pitau(check, prog, canon):
     it = Interp(prog, max_depth=1)
     res = it.analyze(q)
     lps = [l for l in it.loops.values() if l['func'] == q]
-    if len(lps) != 1 or 'pi' not in lps[0]['vars'] or 'tau' not in lps[0]['vars']:
-        check.bad('H4-pi-tau', 'calculate_pil_taul', 'no single recurrence loop', loc)
+    v = res.ret
+    # the two recurrences are named by their position in the returned pair
+    okr = v[0] == 'tuple' and len(v[1]) == 2 and all(
+        x[0] == 'attr' and x[2] == 'T' and x[1][0] == 'idx' and
+        x[1][2] == ('slice', num(1), NONE, NONE) and x[1][1][0] == 'loop' for x in v[1])
+    if len(lps) != 1 or not okr:
+        check.bad('H4-pi-tau', 'calculate_pil_taul', 'no single recurrence loop whose '
+                  'two arrays are returned as (pi[1:].T, tau[1:].T)', loc)
         return
     lp = lps[0]
+    npi, ntau = v[1][0][1][1][1], v[1][1][1][1][1]
+    if npi == ntau or npi not in lp['vars'] or ntau not in lp['vars']:
+        check.bad('H4-pi-tau', 'calculate_pil_taul', 'returned arrays are not the two '
+                  'recurrence variables', loc)
+        return
     c0 = Canon()
-    (pi0, pis), (tau0, taus) = lp['vars']['pi'], lp['vars']['tau']
+    (pi0, pis), (tau0, taus) = lp['vars'][npi], lp['vars'][ntau]
     mu = None
     ok_init = pi0[0] == 'upd' and pi0[3] == num(1) and pi0[4] == num(1) and \
         pi0[1][0] == 'call' and pi0[1][1] == 'numpy.zeros'
@@ -326,13 +337,7 @@ def pitau(check, prog, canon):
     check.require(c0.equal(taus[4], want_tau) and taus[3] == n, 'H4-pi-tau', 'tau_n',
                   'B&H 4.47: tau_n = n mu pi_n - (n+1) pi_{n-1}', loc,
                   fail_detail='tau_n = %s' % c0.show(taus[4])[:240])
-    v = res.ret
-    ok = v[0] == 'tuple' and len(v[1]) == 2 and all(
-        x[0] == 'attr' and x[2] == 'T' and x[1][0] == 'idx' and
-        x[1][2] == ('slice', num(1), NONE, NONE) for x in v[1]) and \
-        v[1][0][1][1][0] == 'loop' and v[1][0][1][1][1] == 'pi' and \
-        v[1][1][1][1][1] == 'tau'
-    check.require(ok, 'H4-pi-tau', 'returned orders',
+    check.require(okr, 'H4-pi-tau', 'returned orders',
                   'orders 1..N are returned, (pi, tau), theta-major', loc)
 
 
@@ -367,6 +372,9 @@ def smatrix(check, prog, canon):
         okf = bool(pt) and body[0] == 'bin' and body[1] == '*'
         if okf:
             coeffs, mix = body[2], body[3]
+            if not any(x[0] == 'comp' for x in subterms(coeffs)) or \
+                    any(x == pt[0] for x in subterms(coeffs)):
+                coeffs, mix = mix, coeffs
             pils = intern(('idx', pt[0], num(0)))
             tauls = intern(('idx', pt[0], num(1)))
             # mix = X*tauls + Y*pils where X, Y are the al/bl arrays
@@ -448,7 +456,7 @@ def bh488(check, prog, canon):
                   '([m D_n(mx) + n/x] xi_n - xi_{n-1})', loc,
                   fail_detail='b_n = %s' % c0.show(bn)[:300])
     # D_n evaluated at m x; psi, xi at x; output starts at n = 1
-    okD = D[0][2][0] == ('bin', '*', m, x)
+    okD = c0.equal(D[0][2][0], intern(('bin', '*', m, x)))
     okp = px[0][2][0] == x and px[0][2][1] == nstop
     oks = all(s[0] == 'slice' and s[1] == num(1) for s in sl) and len(sl) == 2
     check.require(okD and okp and oks, 'H4-bh-4.88', 'scatcoeffs arguments',
@@ -475,10 +483,15 @@ def yang(check, prog, canon):
     marr = [x for x in subterms(lp['vars']['hans'][1]) if x[0] == 'idx' and x[2] == lay]
     ma = None
     xa = None
+    pm, px_ = [sym(a.arg) for a in fd.args.args[:2]]
     for x in subterms(lp['vars']['hans'][1]):
         if x[0] == 'bin' and x[1] == '*' and x[2][0] == 'idx' and x[3][0] == 'idx' and \
                 x[2][2] == lay and x[3][2] == lay:
-            ma, xa = x[2][1], x[3][1]
+            # the first positional parameter is the index array, the second the
+            # size-parameter array (the caller passes them in that order)
+            for A, B in ((x[2][1], x[3][1]), (x[3][1], x[2][1])):
+                if any(y == pm for y in subterms(A)) and any(y == px_ for y in subterms(B)):
+                    ma, xa = A, B
     if ma is None:
         check.bad('H3-yang-recursion', 'scatcoeffs_multi',
                   'cannot identify m_l x_l in the layer loop', loc)
